@@ -571,6 +571,13 @@ def _large_acyclic(n, a, owners, numbering):
     g = dict(rewards=rewards, players=players, transition_list=tl, final_states=[W])
     if numbering == "desc":
         return _renumber(g, _reverse_perm(n))
+    if numbering == "head":
+        # the two absorbing states are numbered 1 and 2, everything else moves up (states that are never swept come first)
+        perm = [0] * n
+        perm[n - 2], perm[n - 1] = 1, 2
+        for i in range(1, n - 2):
+            perm[i] = i + 2
+        return _renumber(g, perm)
     if numbering == "inter":
         rest = list(range(1, n))
         order = rest[1::2] + rest[0::2]            # physical positions 1.. are given to the odd, then the even logical states
@@ -581,8 +588,8 @@ def _large_acyclic(n, a, owners, numbering):
     return g
 
 
-U_A_SIZES_QUICK = (12, 17, 33, 51, 65, 100, 130, 300)
-U_A_SIZES_ALL = (12, 13, 17, 33, 34, 51, 65, 66, 100, 129, 130, 200, 258, 300, 513)
+U_A_SIZES_QUICK = (12, 17, 33, 51, 65, 100, 130, 300, 600)
+U_A_SIZES_ALL = (12, 13, 17, 33, 34, 51, 65, 66, 100, 129, 130, 200, 258, 300, 513, 600, 1000)
 
 
 def U_A_games(sizes=U_A_SIZES_ALL):
@@ -592,7 +599,7 @@ def U_A_games(sizes=U_A_SIZES_ALL):
     for n in sizes:
         for a in range(6):
             for owners in range(3):
-                for numbering in ("asc", "desc", "inter"):
+                for numbering in ("asc", "desc", "inter", "head"):
                     games.append(_large_acyclic(n, a, owners, numbering))
     return games
 
@@ -671,3 +678,62 @@ def U_J_games(length=1100):
     tl += [[(1, L)], [(1, W)]]
     rewards += [0, 0]
     return [dict(rewards=rewards, players=players, transition_list=tl, final_states=[W])]
+
+
+def _sliding_corridor(n, p, q, m):
+    """620-state acyclic game: fillers (p final / 1-p trap), a corridor of 5 probability-1 steps numbered upwards that
+    starts at index p and ends in the final state (it settles one step per sweep), read only by the state at index q,
+    which the initial Player-1 state prefers (value 1) to a 0.6 coin; m absorbing-type states are numbered 1..m (the
+    other absorbing states come last)."""
+    traps_low = list(range(1, m + 1))
+    fin, sink = n - 2, n - 1
+    if m >= 2:
+        fin, sink = 1, 2
+    traps = [t for t in traps_low if t not in (fin, sink)] + [n - 3, n - 4]
+    reserved = set([0, fin, sink] + traps)
+    corridor = []
+    s = p
+    while len(corridor) < 5:
+        if s not in reserved:
+            corridor.append(s)
+        s += 1
+    reserved |= set(corridor)
+    free = [s for s in range(n) if s not in reserved]
+    reader = free[0] if q == "low" else free[-1]
+    coin = free[1] if q == "low" else free[-2]
+    players, rewards, tl = [PR] * n, [0] * n, [None] * n
+    for k, s in enumerate(free):
+        pr = (0.5, 0.6, 0.7, 0.8, 0.9)[(s * 7 + k) % 5]
+        tl[s] = [(pr, fin), (round(1 - pr, 1), traps[s % len(traps)])]
+        rewards[s] = s % 3
+    for k, s in enumerate(corridor):
+        tl[s] = [(1, corridor[k + 1] if k + 1 < len(corridor) else fin)]
+        rewards[s] = 1
+    tl[reader] = [(1, corridor[0])]
+    rewards[reader] = 2
+    tl[coin] = [(0.6, fin), (0.4, sink)]
+    players[0] = P1
+    tl[0] = [(ACTIONS[0], reader), (ACTIONS[1], coin)]
+    for t in traps:
+        tl[t] = [(1, sink)]
+    tl[fin] = [(1, fin)]
+    tl[sink] = [(1, sink)]
+    return dict(rewards=rewards, players=players, transition_list=tl, final_states=[fin])
+
+
+def U_SC_games(block_sizes=(256,)):
+    """sliding-corridor games: the late-settling corridor is placed at every offset -6..+1 around every multiple of the given
+    block sizes, the reader before or after everything else, with 0 or 8 absorbing-type states numbered first.  Sweeps that
+    are organised in chunks / windows / dependency blocks of those sizes go wrong for some placement."""
+    n = 620
+    starts = set()
+    for B in block_sizes:
+        for b in range(B, n - 12, B):
+            for off in range(-6, 2):
+                starts.add(b + off)
+    games = []
+    for p in sorted(starts):
+        for q in ("low", "high"):
+            for m in (0, 8):
+                games.append(_sliding_corridor(n, p, q, m))
+    return games
